@@ -154,7 +154,8 @@ impl PrepExec {
         let mut exe = std::mem::take(&mut self.prealloc_exe);
 
         if let Some(ref search_path) = self.search_path {
-            let mut err = Ok(());
+            // if PATH has no usable entry there is nothing to try
+            let mut err = Err(Error::from_raw_os_error(libc::ENOENT));
             // POSIX requires execvp and execve, but not execvpe (although
             // glibc provides one), so we have to iterate over PATH ourselves
             for dir in split_path(search_path.as_os_str()) {
